@@ -8,8 +8,8 @@ from gen import extract_facts
 generate_facts = extract_facts.generate
 
 ID = "C13"
-LEAN_MODULES = ["Econf.Props.C13", "Econf.Props.Struct"]
-THEOREMS = ["Econf.C13_section_codes", "Econf.C13_section_line", "Econf.C13_nodelim_line", "Econf.C13_first_error", "Econf.C13_error_range", "Econf.Struct.C13_messages", "Econf.C13_after_conventional", "Econf.C13_location_file", "Econf.C13_location_seq", "Econf.C13_location_first", "Econf.C13_location_history", "Econf.C13_layered_line"]
+LEAN_MODULES = ["Econf.Props.C13", "Econf.Props.Struct", "Econf.Props.Tie"]
+THEOREMS = ["Econf.C13_section_codes", "Econf.C13_section_line", "Econf.C13_nodelim_line", "Econf.C13_first_error", "Econf.C13_error_range", "Econf.Struct.C13_messages", "Econf.C13_after_conventional", "Econf.C13_location_file", "Econf.C13_location_seq", "Econf.C13_location_first", "Econf.C13_location_history", "Econf.C13_layered_line", "Econf.Struct.tie_err_codes", "Econf.Struct.tie_parser_codes"]
 RULE = ("conventional documents with one injected malformed line of each kind (no closing bracket, text after bracket, empty section "
         "name, key and text without delimiter) at every kind of position, followed by arbitrary lines; alone and as a member of a "
         "layered tree; plus missing files and the message of every code -1..30; distinct by (file content, kind, position)")
